@@ -33,6 +33,9 @@ pub struct Case {
     pub schedule: Schedule,
     pub reference_hash_seed: u64,
     pub clock: Clock,
+    /// Run on the repository's own StdLibState (scoping ops only; no files, terminal or modes).
+    #[serde(default)]
+    pub real_state: bool,
 }
 
 pub struct C08;
@@ -46,6 +49,7 @@ pub fn build_job(case: &Case) -> (Job, Vec<crate::model::Rendered>) {
             lines,
             env: case.env.clone(),
             clock: case.clock.clone(),
+            real_state: case.real_state,
         },
         rendered,
     )
@@ -140,7 +144,8 @@ impl Property for C08 {
         }
     }
 
-    fn generate(&self, run_seed: u64, _run_index: u64) -> Case {
+    fn generate(&self, run_seed: u64, run_index: u64) -> Case {
+        let real_state = run_index % 6 == 5;
         let mut cfg_rng = Rng::split(run_seed, 1);
         let mut work_rng = Rng::split(run_seed, 2);
         let mut fault_rng = Rng::split(run_seed, 3);
@@ -152,9 +157,14 @@ impl Property for C08 {
             month: 1 + cfg_rng.below(12) as i32,
             year: 1990 + cfg_rng.below(60) as i32,
         };
-        let cfg = gen::scope_cfg(&mut cfg_rng);
+        let mut cfg = gen::scope_cfg(&mut cfg_rng);
+        cfg.no_tracingmacros = real_state;
         let mut raw = RawGen::new(&mut cfg_rng);
-        let raw_share = [0u32, 25, 50, 75][cfg_rng.below(4)];
+        let raw_share = if real_state {
+            0
+        } else {
+            [0u32, 25, 50, 75][cfg_rng.below(4)]
+        };
         let mut lines: Vec<Vec<Op>> = vec![];
         let mut meta: Vec<LineMeta> = vec![];
         {
@@ -222,7 +232,7 @@ impl Property for C08 {
             }
         }
         // Raw probe lines at the very end.
-        for _ in 0..3 {
+        for _ in 0..(if real_state { 0 } else { 3 }) {
             let mut ops = vec![];
             for _ in 0..3 {
                 if let Some(p) = raw.piece(&mut raw_rng) {
@@ -274,12 +284,18 @@ impl Property for C08 {
             schedule,
             reference_hash_seed: hash_rng.next_u64(),
             clock,
+            real_state,
         }
     }
 
     fn evaluate(&self, case: &Case) -> Evaluation {
         let mut ev = Evaluation::default();
         let (job, rendered) = build_job(case);
+        ev.bump(if case.real_state {
+            "runs_on_real_StdLibState"
+        } else {
+            "runs_on_SimState"
+        });
         let reference = run_job(&job, &Schedule::reference(case.reference_hash_seed), true);
         let trace = run_job(&job, &case.schedule, true);
         let mut log = String::new();
@@ -449,6 +465,7 @@ impl Property for C08 {
                 schedule: c.schedule,
                 reference_hash_seed: case.reference_hash_seed,
                 clock: c.clock,
+                real_state: case.real_state,
             })
             .collect();
         // Environment: drop files, terminal lines.
